@@ -35,8 +35,10 @@ def gen_plan(rng, opts=None):
                 l.append(["read", key, rng.choice([0, 0, 1, 5, 40]) * 50])
             elif r < 0.80:
                 l.append(["purge", key])
-            elif r < 0.88:
+            elif r < 0.86:
                 l.append(["free"])
+            elif r < 0.88:
+                l.append(["status", key])
             elif r < 0.93 and o["stale"]:
                 l.append(["sleep", rng.choice([5, 16, 31]) * 60_000])
             elif r < 0.96 and o["stale"]:
@@ -58,7 +60,7 @@ def gen_plan(rng, opts=None):
                     n += 1
         for l in ops:
             for op in l:
-                if op[0] in ("read", "read_leak", "purge") and written:
+                if op[0] in ("read", "read_leak", "purge", "status") and written:
                     op[1] = rng.choice(written)
         keys = written or keys
     faults = []
@@ -472,6 +474,14 @@ def run(plan, ch, want_log=False):
                 results["purge" if err is None else "purge_err"] += 1
             elif kind == "free":
                 api_call(client.get_free_space)
+            elif kind == "status":
+                was_closed = op[1] in closed_ok
+                st, err = api_call(client.status, op[1])
+                results["status" if err is None else "status_err"] += 1
+                if err is not None:
+                    mon.v("C09", "status_request_failed", (op[1], repr(err)[:100]))
+                elif was_closed and op[1] in never_purged and not plan.get("faults") and st != mon.api.DatasetStatus.ready:
+                    mon.v("C09", "status_of_live_dataset_not_ready", (op[1], repr(st)))
             elif kind == "sleep":
                 K.sleep(op[1] * 1_000_000)
                 K.fire("clock_advance_past_staleness") if op[1] >= 16 * 60_000 else None
